@@ -399,7 +399,9 @@ def parse_radec(src_raj: float, src_dej: float) -> SkyCoord:
     de, ami = divmod(abs(src_dej), 10000)
     ami, ase = divmod(ami, 100)
 
-    radec_str = f"{int(ho)} {int(mi)} {se} {sign * int(de)} {int(ami)} {ase}"
+    # the sign is written separately: "-0" degrees must stay south of the equator
+    dec_sign = "-" if sign < 0 else ""
+    radec_str = f"{int(ho)} {int(mi)} {se} {dec_sign}{int(de)} {int(ami)} {ase}"
     return SkyCoord(radec_str, unit=(units.hourangle, units.deg))
 
 
